@@ -2,6 +2,7 @@ package mon
 
 import (
 	"context"
+	"encoding/base64"
 	"encoding/json"
 	"fmt"
 	"math/rand"
@@ -289,9 +290,10 @@ func tryDecode(run *evid.Run, hb *hostile, w *hx.World, honest iface.IPFSLogEntr
 			}
 		}
 	default:
-		ios := []string{"cbor", "link"}
+		// every codec is handed every block that is a valid IPLD node: a stored log can link to blocks of any codec
+		ios := []string{"cbor", "link", "pb"}
 		if hb.Template == "v0" {
-			ios = []string{"pb"}
+			ios = []string{"pb", "cbor", "link"}
 		}
 		for _, ion := range ios {
 			var e iface.IPFSLogEntry
@@ -438,6 +440,49 @@ func CheckC12(run *evid.Run) {
 		hb := &hostile{Template: "v0", Edits: "json=" + name, raw: raw, c: c}
 		pool = append(pool, hb)
 		jobs = append(jobs, func() { tryDecode(run, hb, w, hon, "root"); run.NonTrivialIf(hb.Outcome != "ipld-error", "root/"+hb.Edits) })
+	}
+	// hostile plaintexts INSIDE authentic encrypted links (an insider holding the link key): the decrypted CBOR is untrusted too
+	{
+		key := hx.LinkKey(1)
+		plains := map[string][]byte{
+			"next=[link(empty bytes)]":   {0xa2, 0x64, 'n', 'e', 'x', 't', 0x81, 0xd8, 0x2a, 0x40, 0x64, 'r', 'e', 'f', 's', 0x80},
+			"refs=[link(empty bytes)]":   {0xa2, 0x64, 'n', 'e', 'x', 't', 0x80, 0x64, 'r', 'e', 'f', 's', 0x81, 0xd8, 0x2a, 0x40},
+			"next=[link(00)]":            {0xa1, 0x64, 'n', 'e', 'x', 't', 0x81, 0xd8, 0x2a, 0x41, 0x00},
+			"next=[link(01 02)]":         {0xa1, 0x64, 'n', 'e', 'x', 't', 0x81, 0xd8, 0x2a, 0x42, 0x01, 0x02},
+			"next=[link(text)]":          {0xa1, 0x64, 'n', 'e', 'x', 't', 0x81, 0xd8, 0x2a, 0x61, 'x'},
+			"next=5":                     {0xa1, 0x64, 'n', 'e', 'x', 't', 0x05},
+			"next=[1,2]":                 {0xa1, 0x64, 'n', 'e', 'x', 't', 0x82, 0x01, 0x02},
+			"next=null":                  {0xa1, 0x64, 'n', 'e', 'x', 't', 0xf6},
+			"empty map":                  {0xa0},
+			"text":                       {0x61, 'x'},
+			"array":                      {0x80},
+			"truncated":                  {0xa2, 0x64, 'n', 'e'},
+			"empty":                      {},
+			"clock=null,next=[]":         {0xa2, 0x65, 'c', 'l', 'o', 'c', 'k', 0xf6, 0x64, 'n', 'e', 'x', 't', 0x80},
+			"identity={},next=[]":        {0xa2, 0x68, 'i', 'd', 'e', 'n', 't', 'i', 't', 'y', 0xa0, 0x64, 'n', 'e', 'x', 't', 0x80},
+		}
+		for name, pt := range plains {
+			for _, nlen := range []int{24, 23, 25, 0} {
+				name, pt, nlen := name, pt, nlen
+				nonce := make([]byte, 24)
+				for k := range nonce {
+					nonce[k] = byte(k + len(name))
+				}
+				sealed, err := key.SealWithNonce(pt, nonce)
+				if err != nil {
+					continue
+				}
+				root := deepCopy(v2l).(map[string]any)
+				root["enc_links"] = base64.StdEncoding.EncodeToString(sealed)
+				root["enc_links_nonce"] = base64.StdEncoding.EncodeToString(append(nonce, make([]byte, 8)...)[:nlen])
+				hb := mk(tmpls[1], root, fmt.Sprintf("v2-link:enc_links=seal(%s),nonce_len=%d", name, nlen))
+				if hb == nil {
+					continue
+				}
+				pool = append(pool, hb)
+				jobs = append(jobs, func() { tryDecode(run, hb, w, hon, "sealed-plaintext"); run.NonTrivialIf(hb.Outcome != "ipld-error", "s/"+hb.Edits) })
+			}
+		}
 	}
 	// multi-edits, sampled
 	nmulti := pick(run.Tier, 20000, 300000)
